@@ -853,6 +853,9 @@ func denominatorSignRule(p *core.Program, r *core.Report, rule string, targets [
 					if g == nil || g.Blocks == nil || core.FnPkgPath(g) != core.FnPkgPath(entry) {
 						continue
 					}
+					if o := g.Object(); o == nil || o.Exported() {
+						continue // an exported function is a kernel of its own, not a piece split off this one
+					}
 					dup := false
 					for _, x := range cands {
 						dup = dup || x == g
